@@ -101,13 +101,17 @@ func NewFloatFromString(typ *types.FloatType, s string) (*Float, error) {
 				// pad with leading zeroes (e.g. for case like `0xL01`)
 				hex = strings.Repeat("0", maxHexLen-len(hex)) + hex
 			}
+			// Note, the first 16 hexadecimal digits hold the low 64 bits of the
+			// IEEE 754 quadruple precision binary representation, and the last 16
+			// hexadecimal digits hold the high 64 bits (sign, exponent and most
+			// significant bits of the mantissa).
 			part1 := hex[:maxHexLen/2]
 			part2 := hex[maxHexLen/2:]
-			a, err := strconv.ParseUint(part1, 16, 64)
+			b, err := strconv.ParseUint(part1, 16, 64)
 			if err != nil {
 				return nil, errors.WithStack(err)
 			}
-			b, err := strconv.ParseUint(part2, 16, 64)
+			a, err := strconv.ParseUint(part2, 16, 64)
 			if err != nil {
 				return nil, errors.WithStack(err)
 			}
@@ -415,14 +419,16 @@ func (c *Float) Ident() string {
 			if c.X != nil && c.X.Signbit() {
 				a, b = binary128.NegNaN.Bits()
 			}
-			return fmt.Sprintf("0x%c%016X%016X", hexPrefix, a, b)
+			// low 64 bits first.
+			return fmt.Sprintf("0x%c%016X%016X", hexPrefix, b, a)
 		}
 		f, acc := binary128.NewFromBig(c.X)
 		if acc != big.Exact {
 			log.Printf("unable to represent floating-point constant %v of type %v exactly; please submit a bug report to llir/llvm with this error message", c.X, c.Typ)
 		}
 		a, b := f.Bits()
-		return fmt.Sprintf("0x%c%016X%016X", hexPrefix, a, b)
+		// low 64 bits first.
+		return fmt.Sprintf("0x%c%016X%016X", hexPrefix, b, a)
 	// ppc_fp128 (PowerPC double-double arithmetic)
 	case types.FloatKindPPC_FP128:
 		// always represent ppc_fp128 in hexadecimal floating-point notation.
